@@ -23,7 +23,6 @@ SHAPE_KEYS: set[tuple[str, str]] = {
     ("C13.R4", "entry-block"),
     ("C15.R3", "cmpf"),
     ("C15.R3", "cmpi-missing"),
-    ("C16.R4", "non-invariant-operand"),
     ("C18.R1", "bool-form"),
     ("C19.R1", "free-of-non-definition"),
     ("C19.R3", "no-exclusion"),
